@@ -54,7 +54,11 @@ fn fit_case<T: Sc>(rng: &mut Rng, case: u64, out: &mut CaseOut) {
     let s = if case % 40 == 17 { rng.int(56, 100) } else { *rng.pick(&[1usize, 1, 2, 5]) };
     let noiseless = rng.chance(0.5);
     // coefficients |c_j| in [0.5,5]
-    let c_true = Mat::from_fn(m, s, |_, _| rng.sign() * rng.range(0.5, 5.0));
+    // with several right-hand sides every second instance has members of different magnitude
+    // (coefficients of a column all near 0.5 or all near 5, still inside the family's range)
+    let banded = s > 1 && rng.chance(0.5);
+    let band: Vec<bool> = (0..s).map(|j| j % 2 == 0).collect();
+    let c_true = Mat::from_fn(m, s, |_, j| rng.sign() * if !banded { rng.range(0.5, 5.0) } else if band[j] { rng.range(0.5, 0.7) } else { rng.range(3.5, 5.0) });
     let phi = mspec.phi64::<f64>(&alpha_true);
     let mut y = phi.mul(&c_true);
     let amp = if noiseless { 0.0 } else { 1e-3 };
